@@ -12,7 +12,7 @@ import (
 //
 // quick: the small exhaustive universe (every tree of ≤ 2 files from a pool of 12 × 4 context loaders / topologies × a fixed lookup
 // list and its reverse), the loader-kind universe (every tree of ≤ 2 files from a pool of 10 × 7 context loaders, genKinds),
-// ~60 random trees × 40 lookups, 300 smart-path ops; thorough: 2000 trees × 100 lookups, 6000 smart-path ops.
+// ~480 random trees × 40 lookups, 300 smart-path ops; thorough: 4000 trees × 100 lookups, 6000 smart-path ops.
 
 var segPool = []string{"thing", "deep", "sub", "ta", "tb", "x1", "my_type", "ns"}
 var modPool = []string{"mymod", "other", "m3"}
@@ -303,6 +303,26 @@ func randTree(r *rand.Rand, nLookups int) spec {
 			s.lookups = append(s.lookups, lookup{op: "load", name: n})
 		}
 	}
+	// definitions made between lookups, without a file: [load N, def L N, load N, load N'] for a fresh name N that loader L
+	// should hold (a module's Mod::LateK in that module's loader, an unqualified LateK in the global loader) — a miss
+	// recorded before the definition must not be final
+	for k := 0; k < 2 && r.Intn(3) == 0; k++ {
+		in, n := "g", "Late"+string(rune('a'+r.Intn(3)))
+		if len(s.mods) > 0 && r.Intn(3) != 0 {
+			m := s.mods[r.Intn(len(s.mods))]
+			in, n = "m:"+m, capSeg(m)+"::"+n
+		}
+		seq := []lookup{{op: "load", name: n}, {op: "def", name: n, in: in}, {op: "load", name: n},
+			{op: "load", name: caseVariant(r, n)}}
+		if r.Intn(3) == 0 {
+			seq = seq[1:] // defined before the first lookup
+		}
+		at := 0
+		if len(s.lookups) > 0 {
+			at = r.Intn(len(s.lookups))
+		}
+		s.lookups = append(append(append([]lookup{}, s.lookups[:at]...), seq...), s.lookups[at:]...)
+	}
 	// error-then-declared sequences: around the lookup that surfaces a defective file, the names that file DECLARES and
 	// names declared elsewhere are looked up, in both orders (an error lookup must not bind anything; a name without a
 	// file stays absent whatever happened before; a name with a file is answered from that file)
@@ -461,6 +481,37 @@ func genDeep(emit func(spec)) {
 	}
 }
 
+// definitions made between lookups (fix 9d272bd of /repo: a miss recorded by the dependency loader is not final): a name
+// misses, is then defined through a module's / the global loader's DefiningLoader (px.AddTypes, no file), and is looked up
+// again — through every context loader; also defined first, defined twice, a member asked before its type set is loaded
+// through a loader that does not serve the qualified name (module `environment`)
+func genDefs(emit func(spec)) {
+	ld := func(n string) lookup { return lookup{op: "load", name: n} }
+	df := func(in, n string) lookup { return lookup{op: "def", name: n, in: in} }
+	seqs := [][]lookup{
+		{ld("Mymod::Late"), df("m:mymod", "Mymod::Late"), ld("Mymod::Late"), ld("MYMOD::late"), {op: "has", name: "Mymod::Late"}, {op: "discover"}},
+		{ld("Mymod::Late"), ld("Mymod::Late"), df("m:mymod", "Mymod::Late"), ld("Mymod::Late"), df("m:mymod", "Mymod::Late"), ld("Mymod::Late")},
+		{df("m:mymod", "Mymod::Late"), ld("Mymod::Late"), ld("Mymod::Later"), df("m:mymod", "Mymod::Later"), ld("Mymod::Later")},
+		{ld("Glob"), df("g", "Glob"), ld("Glob"), ld("GLOB"), ld("Ns::Deep::X"), df("g", "Ns::Deep::X"), ld("Ns::Deep::X")},
+		{ld("Mymod::Sub::Late"), ld("Mymod::Sub"), df("m:mymod", "Mymod::Sub::Late"), ld("Mymod::Sub::Late"), ld("Mymod::Sub")},
+		{ld("Environment::Late"), df("m:environment", "Environment::Late"), ld("Environment::Late"), ld("Late"), df("m:environment", "Late"), ld("Late")},
+		{ld("Ts::Ta"), ld("Ts"), ld("Ts::Ta"), ld("Ts::Tb"), ld("Mymod::Ta"), ld("Mymod"), ld("Mymod::Ta")},
+	}
+	files := []file{
+		{segs: []string{"modules", "environment", "types", "ts.pp"}, body: body{kind: "typeset", name: "Ts", types: []string{"Ta", "Tb"}}},
+		{segs: []string{"modules", "mymod", "types", "init_typeset.pp"}, body: body{kind: "typeset", name: "Mymod", types: []string{"Ta"}}},
+		{segs: []string{"modules", "mymod", "types", "thing.pp"}, body: body{kind: "alias", name: "Mymod::Thing"}},
+	}
+	for _, via := range []string{"d", "e", "g", "m:mymod", "f:mymod", "m:environment", "m:other"} {
+		for _, mods := range [][]string{{"mymod", "other", "environment"}, {"environment", "other", "mymod"}} {
+			for _, sq := range seqs {
+				emit(spec{mods: mods, via: via, lookups: sq})
+				emit(spec{mods: mods, files: files, via: via, lookups: sq})
+			}
+		}
+	}
+}
+
 func gen(g *core.G) {
 	emit := func(s spec) { g.Emit(s.String()) }
 	// two lookup lists: the fixed one and its reverse (every pair of names is asked in both orders)
@@ -484,9 +535,10 @@ func gen(g *core.G) {
 	}
 	genKinds(emit)
 	genDeep(emit)
-	trees, lookups := 60, 40
+	genDefs(emit)
+	trees, lookups := 480, 40
 	if g.Thorough() {
-		trees, lookups = 2000, 100
+		trees, lookups = 4000, 100
 	}
 	for i := 0; i < trees; i++ {
 		emit(randTree(g.Rng, lookups))
